@@ -9,6 +9,7 @@ TABLES = {
     "enumB": (["a::i", "c#2::i", "ca::i", "s#2/"], 3, ["x::i", "y#3::i"]),
     "hashC": (["vol::i", "pan::i", "pa:", "fx/"], 3, ["on::T:F", "mix::f", "m#10::i"]),
     "linD": (["a", "a::i", "b#1", "b0::i"], -1, ["q"]),
+    "hashE": (["abcdefghijklmnop::i", "pan::i", "p:"], -1, ["q"]),   # a name beyond libstdc++'s 15-char small-string buffer
 }
 
 
@@ -87,9 +88,12 @@ def build(ctx):
             for k_ in range(L_):
                 templates.append((pth[:k_], 0, pth[k_ + 1:], al))                    # one character removed
         seen_t = set()
-        templates = [t_ for t_ in templates if not (t_[:3] in seen_t or seen_t.add(t_[:3])) and len(t_[0]) + t_[1] + len(t_[2]) <= 12]
+        templates = [t_ for t_ in templates if not (t_[:3] in seen_t or seen_t.add(t_[:3])) and len(t_[0]) + t_[1] + len(t_[2]) <= 24]
         if not thorough:
             templates = templates[::3] if len(templates) > 60 else templates[::2]
+        if tname == "hashE":    # long name: keep the exact paths and a few edits (loop bounds grow with the name length)
+            templates = [t_ for t_ in templates if len(t_[0]) + t_[1] + len(t_[2]) <= 4] + [("abcdefghijklmnop", 0, "", ["", "i"]), ("abcdefghijklmno", 1, "", ["", "i"]), ("", 1, "bcdefghijklmnop", ["", "i"]), ("abcdefgh", 1, "jklmnop", ["", "i"]), ("abcdefghijklmnop", 1, "", ["", "i"])]
+        LB = max(len(t_[0]) + t_[1] + len(t_[2]) for t_ in templates) + 4
         tagsets = ["i", "", "s"] if not thorough else ["i", "", "s", "f", "T", "ii"]
         all_alts = [alts(n_) for n_ in root + sub]
         def usable(tags):
@@ -115,11 +119,11 @@ def build(ctx):
                     if name in seen_names:
                         continue
                     seen_names.add(name)
-                    q = ctx.add(vlib.Query(name, ["@IR@"] + rt, defines=[d_ for d_ in defs if d_ != "-fno-access-control"], unwind=34, objbits=12,
+                    q = ctx.add(vlib.Query(name, ["@IR@"] + rt, defines=[d_ for d_ in defs if d_ != "-fno-access-control"], unwind=max(34, LB + 24), objbits=12,
                                            native_sources=[h], native_cxx=True, native_flags=inc + defs, native_lib_exclude=["ports.cpp"],
-                                           unwindset=["rtosc_match_path.%d:14" % k for k in range(3)] + ["rtosc_match_number.%d:14" % k for k in range(2)] + ["rtosc_match_options.%d:3" % k for k in range(4)] + ["atoi.0:3", "atoi.1:14", "rtosc_match_args.0:5",
+                                           unwindset=["rtosc_match_path.%d:%d" % (k, max(14, LB)) for k in range(3)] + ["rtosc_match_number.%d:14" % k for k in range(2)] + ["rtosc_match_options.%d:3" % k for k in range(4)] + ["atoi.0:3", "atoi.1:14", "rtosc_match_args.0:5",
                                                       "_ZN5rtosc12Port_Matcher16rtosc_match_argsEPKcS2_.0:8", "_ZN5rtosc12Port_Matcher16rtosc_match_argsEPKcS2_:5",
-                                                      "rtosc_argument_string.0:16", "rtosc_argument_string.1:16", "strncmp.0:10",
+                                                      "rtosc_argument_string.0:%d" % max(16, LB + 2), "rtosc_argument_string.1:16", "strncmp.0:%d" % max(10, LB),
                                                       "strlen.0:3", "vsosc_null.0:3", "nreserved.0:3"] + ["rtosc_amessage.%d:3" % k_ for k_ in range(6)],
                                            witness_optional="a leaf was reached",
                                            descr={"table": {"root": root, "subtree": sub, "lookup": "perfect hash (vectors from the real search)" if hashed else "linear (enumerated / no hash)"},
